@@ -73,6 +73,20 @@ fn apply(s: &mut Summary, kind: &str, v: u64, x: &Value) {
     }
 }
 
+/// a formatter sink that accepts n bytes and then reports an error
+struct FailAfter(usize);
+impl std::fmt::Write for FailAfter {
+    fn write_str(&mut self, s: &str) -> std::fmt::Result {
+        if s.len() > self.0 {
+            self.0 = 0;
+            Err(std::fmt::Error)
+        } else {
+            self.0 -= s.len();
+            Ok(())
+        }
+    }
+}
+
 pub fn parse_result(text: &str) -> Value {
     match Summary::from_str(text) {
         Ok(s) => json!({"ok": snapshot(&s), "text": codes(&s.to_string()), "done": tf(s.is_completed())}),
@@ -119,6 +133,13 @@ pub fn sumhist(input: &Value) -> Out {
         let (kind, v, x) = (st[0].as_str().unwrap(), st[1].as_u64().unwrap(), &st[2]);
         for s in sums.iter_mut() {
             apply(s, kind, v, x);
+        }
+        // printing into a sink that fails part-way must leave nothing behind: the next print
+        // depends only on the current values
+        {
+            use std::fmt::Write as _;
+            let mut sink = FailAfter(steps.len() % 5 * 9);
+            let _ = write!(sink, "{}", sums[0]);
         }
         let t = sums[0].to_string();
         same &= sums[1].to_string() == t && sums[2].to_string() == t && sums[0].clone().to_string() == t;
